@@ -697,6 +697,15 @@ def num_trees_of(desc):
 
 def shrink_ops_case(case):
     ops = case["ops"]
+    nan = [op for op in ops if op[0] in ("seek", "ll_seek") and op[1][0] == "raw" and str(op[1][1]) == "nan"]
+    if nan:
+        # a NaN seek that is not rejected may hang: do not pay the hang timeout for every
+        # shrink candidate, go straight to the minimal sequence
+        if ops != [["first"], nan[0]]:
+            c = dict(case)
+            c["ops"] = [["first"], nan[0]]
+            yield c
+        return
     for i in range(len(ops)):
         c = dict(case)
         c["ops"] = ops[:i] + ops[i + 1:]
@@ -1085,6 +1094,7 @@ class Model(Family):
     the index of the other tree; plus valid_tsb of the tables the implementation built (the
     hypothesis of the theorems)."""
     name = "model"
+    timeout = 10.0
     prelude = "From TskVerif Require Import Base.Common C06.Model.\nOpen Scope Z_scope."
     workers = 8
     shard = 60
